@@ -79,6 +79,9 @@ def gen_cases(tier: str, seed: int) -> list[dict]:
                         continue
                     for order in ("fifo", "random", "hold", "race", "sweep"):
                         cases.append({"shape": shape, "body": rng.randint(2, 4), "times": times, "max_jumps": mj, "level": rng.choice(["wf", "stage"]), "order": order, "listing": rng.choice(["topo", "reversed", "shuffled"]), "echo": rng.random() < 0.25, "seed": rng.randrange(1 << 30)})
+        for mj in (None, 1, 2, 3, 5):
+            for order in ("fifo", "random"):
+                cases.append({"shape": "alternating", "max_jumps": mj, "order": order, "seed": rng.randrange(1 << 30)})
         for back in (1, 2, 3):
             for order in ("fifo", "random", "race"):
                 cases.append({"shape": "fwdback", "times": back, "order": order, "seed": rng.randrange(1 << 30)})
@@ -181,7 +184,43 @@ def _sweep_enum(case: dict) -> dict:
     return {"violations": uniq[:8], "obs": dict(obs), "keys": sorted(set(keys))[:50]}
 
 
+def _alternating(case: dict) -> dict:
+    """head -> review -> verify where TWO stages take turns sending the loop back to its head, for ever (review on
+    its even rounds, verify whenever it is reached): each jump re-arms the other jumper; the per-stage jump limit
+    must still end the loop - TERMINAL after a bounded number of jumps - whatever the delivery order."""
+    mj = case["max_jumps"]
+    limit = DEFAULT_LIMIT if mj is None else mj
+    spec = {
+        "name": f"alternating_mj{mj}",
+        "confluent": False,
+        "stages": [
+            specs.st("a", [], [dict(specs.OK, out=["a_o"])]),
+            specs.st("b", ["a"], [{"kind": "jump", "to": "a", "every": 2, "phase": 0, "out": ["b_o"]}]),
+            specs.st("c", ["b"], [{"kind": "jump", "to": "a", "every": 1, "phase": 0, "out": ["c_o"]}]),
+            specs.st("z", ["c"]),
+        ],
+    }
+    if mj is not None:
+        spec["context"] = {"_max_jumps": mj}
+    obs: Counter = Counter({"evaluations": 1, "alternating_jumper_runs": 1})
+    budget = (2 * limit + 6) * 16 + 60
+    run = delivery_run(spec, seed=case["seed"], order=case["order"], noack_p=0.15 if case["order"] == "random" else 0.0, max_steps=budget)
+    groups = oracles.Groups(run.commits)
+    jumps = len({groups.of(a["seq"]) for a in run.audit if a["kind"] == "mark" and a["op"] == "ins" and a["b"] == "JumpToStage"})
+    out = []
+    if not run.quiescent:
+        out.append(viol("C15/did-not-terminate:two-alternating-jumpers", f"queue not drained after {run.steps} deliveries, {jumps} jumps applied (limit {limit} per stage)"))
+    else:
+        if jumps > 2 * limit + 1:
+            out.append(viol("C15/more-jumps-than-limit:two-alternating-jumpers", f"{jumps} jumps took effect with a limit of {limit} per jumping stage"))
+        if run.state["wf"] != "TERMINAL":
+            out.append(viol("C15/limit-reached-not-terminal:two-alternating-jumpers", f"the loop never ends by itself; workflow {run.state['wf']} after {jumps} jumps, stages { {k: v['status'] for k, v in run.state['stages'].items()} }"))
+    return {"violations": out, "obs": dict(obs), "keys": [f"alternating:{mj}:{case['order']}:{jumps}"]}
+
+
 def run_case(case: dict) -> dict:
+    if case.get("shape") == "alternating":
+        return _alternating(case)
     if case.get("shape") == "fwdback":
         return _fwdback(case)
     if case.get("order") == "sweep_enum":
